@@ -49,3 +49,276 @@ Proof.
      try (specialize (Hex _ eq_refl); inversion Hex; subst; eexists; split; [reflexivity | rewrite firstn_length; lia]);
      try (exfalso; congruence)).
 Qed.
+
+(* what a wake-up can do to the reader task *)
+Lemma wake_res : forall s s' r, wake true s = (s', ORes r) -> tpc s <> PIdle /\ tpc s' = PIdle.
+Proof.
+  intros s s' r H. destruct s as [ib ex ed w e lo le p mc c n dl rr].
+  revert H. unfold_sock; simpl. break_inner; simpl; intro H; inversion H; subst; simpl; split; congruence.
+Qed.
+
+Lemma wake_nores : forall s s' o, wake true s = (s', o) -> (forall r, o <> ORes r) ->
+  tpc s' = tpc s /\ returned s' = returned s.
+Proof.
+  intros s s' o H Hn. destruct s as [ib ex ed w e lo le p mc c n dl rr].
+  revert H. unfold_sock; simpl. break_inner; simpl; intro H; inversion H; subst; simpl; split; try reflexivity;
+    exfalso; eapply Hn; reflexivity.
+Qed.
+
+Lemma wake_bytes_size : forall s s' b, Inv true s -> Inv2 s -> wake true s = (s', ORes (RBytes b)) ->
+  exists o, cur_op s = Some o /\ length b <= op_size o.
+Proof.
+  intros s s' b HI (H1 & H2) H.
+  pose proof (inv_yield _ _ HI) as Hyield. pose proof (inv_extdata _ _ HI) as Hed. clear HI.
+  destruct s as [ib ex ed w e lo le p mc c n dl rr]. unfold cur_op. simpl in *.
+  revert H. unfold_sock; simpl. break_inner; simpl; intro H; inversion H; subst; simpl;
+    try (eexists; split; [reflexivity | rewrite firstn_length; lia]).
+  (* the byte count of a recv_into: the bytes in the caller's buffer *)
+  destruct b as [|x b]; [eexists; split; [reflexivity | simpl; lia]|].
+  destruct H2 as (k & Hk & Hl); [discriminate|]. inversion Hk; subst. eexists; split; [reflexivity | exact Hl].
+Qed.
+
+Lemma env_step_tpc : forall s l,
+  match l with LRecv _ | LRecvInto _ | LWake => True
+  | _ => tpc (fst (step true s l)) = tpc s /\ returned (fst (step true s l)) = returned s end.
+Proof.
+  intros s l. destruct s as [ib ex ed w e lo le p mc c n dl rr].
+  destruct l; try exact I; unfold_sock; simpl; break_inner; simpl; split; reflexivity.
+Qed.
+
+Lemma call_cases : forall s o s' ob, call s o = (s', ob) -> tpc s = PIdle ->
+  match ob with
+  | ONone => (tpc s' = PWait o \/ tpc s' = PYield o) /\ returned s' = returned s
+  | _ => s' = s
+  end.
+Proof.
+  intros s o s' ob H Hp. destruct s as [ib ex ed w e lo le p mc c n dl rr]. simpl in Hp. subst p.
+  revert H. unfold call; simpl. break_inner; simpl; intro H; inversion H; subst; simpl; auto.
+Qed.
+
+Lemma call_is_step : forall s o,
+  call s o = step true s (match o with ORecv k => LRecv k | OInto k => LRecvInto k end).
+Proof. intros s [k|k]; reflexivity. Qed.
+
+Lemma firstn_snoc_nth : forall {X} (l : list X) k r, nth_error l k = Some r -> firstn k l ++ [r] = firstn (S k) l.
+Proof.
+  intros X l. induction l as [|x l IH]; intros k r H; destruct k; simpl in *; try discriminate.
+  - inversion H. reflexivity.
+  - f_equal. apply IH. exact H.
+Qed.
+
+Section Compose.
+  Context {P C : Type}.
+  Variable S : smachine P C.
+  Variable into : bool.
+  Variable spec : bytes -> list (nres P).
+  Variable G : bytes -> Prop.
+  Variable R : C -> bytes -> nat -> Prop.
+  Variable D : C -> bytes -> Prop.
+  Hypothesis OK : consumer_ok_rel (to_machine S) spec G R D.
+  (* asking the consumer for its write buffer keeps a drained consumer drained (the view is re-exported later) *)
+  Hypothesis D_sroom : forall c d c1 room, D c d -> sroom S c = Some (c1, room) -> D c1 d.
+
+  Definition mkop (room : nat) : op := if into then OInto room else ORecv room.
+
+  Lemma mkop_size : forall room, op_size (mkop room) = room.
+  Proof. intro room. unfold mkop. destruct into; reflexivity. Qed.
+
+  Record EInv (es : @estate P C) : Prop := {
+    ei_inv : Inv true (sk es);
+    ei_inv2 : Inv2 (sk es);
+    ei_events : events es = firstn (length (events es)) (spec (returned (sk es)));
+    ei_idle : einrecv es = false ->
+              tpc (sk es) = PIdle /\ R (ec es) (returned (sk es)) (length (events es));
+    ei_recv : einrecv es = true -> exists cpre room,
+              cur_op (sk es) = Some (mkop room) /\ D cpre (returned (sk es)) /\ sroom S cpre = Some (ec es, room) /\
+              length (events es) = length (spec (returned (sk es)))
+  }.
+
+  Lemma events_snoc_event : forall (es : @estate P C) s c r,
+    events (finish_call es s c (EEvent r)) = events es ++ [r].
+  Proof. intros. unfold events, finish_call. simpl. rewrite flat_map_app. reflexivity. Qed.
+
+  Lemma events_snoc_other : forall (eres0 : list (eresult P)) s (c : C) b l x,
+    (forall e, x <> EEvent e) ->
+    events (emk s c b l (eres0 ++ [x])) = events (emk s c b l eres0).
+  Proof.
+    intros. unfold events. simpl. rewrite flat_map_app. simpl.
+    destruct x; try (rewrite app_nil_r; reflexivity). exfalso. eapply H. reflexivity.
+  Qed.
+
+  (* leaving recv_packet without an event, consumer [c] drained *)
+  Lemma idle_exit_inv : forall (es : @estate P C) s c latch x,
+    (forall e, x <> EEvent e) ->
+    Inv true s -> Inv2 s -> tpc s = PIdle -> D c (returned s) ->
+    events es = firstn (length (events es)) (spec (returned s)) ->
+    length (events es) = length (spec (returned s)) ->
+    EInv (emk s c false latch (eres es ++ [x])).
+  Proof.
+    intros es s c latch x Hx HI HI2 Hp HD Hev Hk.
+    assert (Hevs : events (emk s c false latch (eres es ++ [x])) = events es).
+    { rewrite events_snoc_other by exact Hx. reflexivity. }
+    constructor; simpl; try assumption.
+    - rewrite Hevs. exact Hev.
+    - intros _. split; [exact Hp|]. rewrite Hevs, Hk. apply (okr_D_R _ _ _ _ _ OK). exact HD.
+    - discriminate.
+  Qed.
+
+  Lemma ehead_inv : forall (es : @estate P C) c,
+    Inv true (sk es) -> Inv2 (sk es) -> tpc (sk es) = PIdle -> D c (returned (sk es)) ->
+    events es = firstn (length (events es)) (spec (returned (sk es))) ->
+    length (events es) = length (spec (returned (sk es))) ->
+    EInv (ehead S into es (sk es) c).
+  Proof.
+    intros es c HI HI2 Hp HD Hev Hk. unfold ehead.
+    destruct (sroom S c) as [[c1 room]|] eqn:Hroom.
+    - assert (HD1 : D c1 (returned (sk es))) by (eapply D_sroom; eassumption).
+      fold (mkop room).
+      destruct (call (sk es) (mkop room)) as [s' ob] eqn:Hcall.
+      pose proof (call_cases _ _ _ _ Hcall Hp) as Hc.
+      destruct ob as [| |r|]; try (subst s'; unfold finish_call; apply idle_exit_inv; auto; congruence).
+      + (* suspended in the transport call *)
+        destruct Hc as (Htp & Hret).
+        assert (HI' : Inv true s').
+        { replace s' with (fst (call (sk es) (mkop room))) by (rewrite Hcall; reflexivity). apply call_inv. exact HI. }
+        assert (HI2' : Inv2 s').
+        { replace s' with (fst (step true (sk es) (match mkop room with ORecv k => LRecv k | OInto k => LRecvInto k end))).
+          - apply step_inv2; assumption.
+          - rewrite <- call_is_step, Hcall. reflexivity. }
+        constructor; simpl; try assumption.
+        * rewrite Hret. exact Hev.
+        * discriminate.
+        * intros _. exists c, room. rewrite Hret. repeat split; try assumption.
+          unfold cur_op. destruct Htp as [Htp|Htp]; rewrite Htp; reflexivity.
+      + subst s'. destruct r as [b| |e|]; try (unfold finish_call; apply idle_exit_inv; auto; congruence).
+        destruct b; [|unfold finish_call]; apply idle_exit_inv; auto; congruence.
+    - unfold finish_call. apply idle_exit_inv; auto; congruence.
+  Qed.
+
+  Lemma erecv_packet_inv : forall es, EInv es -> G (returned (sk es)) -> EInv (erecv_packet S into es).
+  Proof.
+    intros es H HG. unfold erecv_packet. destruct (einrecv es) eqn:Hin; [exact H|].
+    destruct (ei_idle _ H Hin) as (Hp & HR).
+    destruct (sdrain S (ec es)) as [c' r] eqn:Hdr.
+    pose proof (okr_drain _ _ _ _ _ OK (ec es) (returned (sk es)) (length (events es)) c' r HG HR Hdr) as Hd.
+    assert (Hevent : forall r0, r = r0 -> r0 <> RStop ->
+              nth_error (spec (returned (sk es))) (length (events es)) = Some r0 /\
+              R c' (returned (sk es)) (Datatypes.S (length (events es))) ->
+              EInv (finish_call es (sk es) c' (EEvent r0))).
+    { intros r0 _ _ (Hn & HR'). constructor; simpl.
+      - exact (ei_inv _ H).
+      - exact (ei_inv2 _ H).
+      - rewrite events_snoc_event. rewrite app_length. simpl. rewrite Nat.add_1_r.
+        rewrite <- (firstn_snoc_nth _ _ _ Hn). f_equal. exact (ei_events _ H).
+      - intros _. split; [exact Hp|]. rewrite events_snoc_event, app_length. simpl. rewrite Nat.add_1_r. exact HR'.
+      - discriminate. }
+    destruct r.
+    - apply (Hevent _ eq_refl); [congruence | exact Hd].
+    - apply (Hevent _ eq_refl); [congruence | exact Hd].
+    - destruct Hd as (Hk & HD).
+      destruct (elatch es).
+      + unfold finish_call. apply idle_exit_inv; try assumption; try congruence.
+        * exact (ei_inv _ H). * exact (ei_inv2 _ H). * exact (ei_events _ H).
+      + apply ehead_inv; try assumption.
+        * exact (ei_inv _ H). * exact (ei_inv2 _ H). * exact (ei_events _ H).
+    - apply (Hevent _ eq_refl); [congruence | exact Hd].
+  Qed.
+
+  Lemma spec_mono_firstn : forall d x, firstn (length (spec d)) (spec (d ++ x)) = spec d.
+  Proof.
+    intros d x. destruct (okr_mono _ _ _ _ _ OK d x) as (tl & Htl). rewrite Htl.
+    rewrite firstn_app, Nat.sub_diag, firstn_all. simpl. apply app_nil_r.
+  Qed.
+
+  Lemma ewake_inv : forall es, EInv es -> G (returned (sk (ewake S into es))) -> EInv (ewake S into es).
+  Proof.
+    intros es H. unfold ewake.
+    destruct (wake true (sk es)) as [s' ob] eqn:Hw.
+    assert (HI' : Inv true s').
+    { replace s' with (fst (wake true (sk es))) by (rewrite Hw; reflexivity). apply wake_inv. exact (ei_inv _ H). }
+    assert (HI2' : Inv2 s').
+    { replace s' with (fst (step true (sk es) LWake)) by (simpl; rewrite Hw; reflexivity).
+      apply step_inv2; [exact (ei_inv _ H) | exact (ei_inv2 _ H)]. }
+    assert (Hret : returned s' = returned (sk es) ++ obs_bytes ob).
+    { pose proof (step_returned true (sk es) LWake) as Hr. simpl in Hr. rewrite Hw in Hr. exact Hr. }
+    assert (Hnores : (forall r, ob <> ORes r) ->
+              EInv (emk s' (ec es) (einrecv es) (elatch es) (eres es))).
+    { intro Hn. destruct (wake_nores _ _ _ Hw Hn) as (Htp & Hr).
+      constructor; simpl; try assumption.
+      - rewrite Hr. exact (ei_events _ H).
+      - intro Hin. rewrite Htp, Hr. exact (ei_idle _ H Hin).
+      - intro Hin. destruct (ei_recv _ H Hin) as (cpre & room & A & B & C0 & E).
+        exists cpre, room. unfold cur_op in *. rewrite Htp, Hr. auto. }
+    destruct ob as [| |r|]; try (intros _; apply Hnores; congruence).
+    destruct (wake_res _ _ _ Hw) as (Hnidle & Hidle').
+    destruct (einrecv es) eqn:Hin.
+    2:{ exfalso. apply Hnidle. exact (proj1 (ei_idle _ H Hin)). }
+    destruct (ei_recv _ H Hin) as (cpre & room & Hop & HD & Hroom & Hk).
+    assert (HDec : D (ec es) (returned (sk es))) by (eapply D_sroom; eassumption).
+    assert (Hother : forall x latch, (forall e, x <> EEvent e) -> obs_bytes (ORes r) = [] ->
+              EInv (emk s' (ec es) false latch (eres es ++ [x]))).
+    { intros x latch Hx Hb. rewrite Hb, app_nil_r in Hret.
+      apply idle_exit_inv; try assumption; rewrite Hret; try assumption. exact (ei_events _ H). }
+    destruct r as [b| |e|]; try (intros _; unfold finish_call; apply Hother; [congruence | reflexivity]).
+    destruct b as [|x0 b0]; [intros _; apply Hother; [congruence | reflexivity]|].
+    remember (x0 :: b0) as b eqn:Eb. assert (Hbne : b <> []) by (subst b; discriminate). simpl in Hret.
+    (* bytes came back: feed them *)
+    destruct (wake_bytes_size _ _ _ (ei_inv _ H) (ei_inv2 _ H) Hw) as (o & Ho & Hlen).
+    rewrite Hop in Ho. inversion Ho; subst o. rewrite mkop_size in Hlen.
+    destruct (sfeed S (ec es) b) as [c3 r3] eqn:Hfeed.
+    assert (Htake : forall HGb : G (returned (sk es) ++ b),
+              match r3 with
+              | RStop => length (spec (returned (sk es) ++ b)) = length (spec (returned (sk es))) /\
+                         D c3 (returned (sk es) ++ b)
+              | _ => nth_error (spec (returned (sk es) ++ b)) (length (spec (returned (sk es)))) = Some r3 /\
+                     R c3 (returned (sk es) ++ b) (Datatypes.S (length (spec (returned (sk es)))))
+              end).
+    { intro HGb.
+      destruct (okr_take _ _ _ _ _ OK cpre (returned (sk es)) b HD) as (c' & r' & n & room' & Hm & Hn & Hres);
+        [exact Hbne | exact HGb |].
+      simpl in Hm. rewrite Hroom in Hm. rewrite (firstn_all2 b) in Hm by exact Hlen. rewrite Hfeed in Hm.
+      inversion Hm; subst c' r' n room'. rewrite firstn_all in Hres. exact Hres. }
+    assert (Hev0 : events es = spec (returned (sk es))).
+    { rewrite (ei_events _ H). rewrite Hk. apply firstn_all. }
+    destruct r3; intro HGb; simpl in HGb.
+    - (* an event comes out *)
+      rewrite Hret in HGb. destruct (Htake HGb) as (Hn & HR').
+      constructor; simpl; try assumption.
+      + rewrite events_snoc_event, app_length. simpl. rewrite Nat.add_1_r, Hret, Hk.
+        rewrite <- (firstn_snoc_nth _ _ _ Hn). f_equal. rewrite spec_mono_firstn. exact Hev0.
+      + intros _. split; [exact Hidle'|]. rewrite events_snoc_event, app_length. simpl.
+        rewrite Nat.add_1_r, Hret, Hk. exact HR'.
+      + discriminate.
+    - rewrite Hret in HGb. destruct (Htake HGb) as (Hn & HR').
+      constructor; simpl; try assumption.
+      + rewrite events_snoc_event, app_length. simpl. rewrite Nat.add_1_r, Hret, Hk.
+        rewrite <- (firstn_snoc_nth _ _ _ Hn). f_equal. rewrite spec_mono_firstn. exact Hev0.
+      + intros _. split; [exact Hidle'|]. rewrite events_snoc_event, app_length. simpl.
+        rewrite Nat.add_1_r, Hret, Hk. exact HR'.
+      + discriminate.
+    - (* StopIteration: back to the top of the loop *)
+      assert (HGb' : G (returned (sk es) ++ b)).
+      { revert HGb. unfold ehead. simpl.
+        destruct (sroom S c3) as [[c1 room1]|]; [|simpl; rewrite Hret; auto].
+        destruct (call s' (if into then OInto room1 else ORecv room1)) as [s2 ob2] eqn:Hc2.
+        pose proof (call_cases _ _ _ _ Hc2 Hidle') as Hcc.
+        destruct ob2 as [| |r2|]; simpl; try (subst s2; rewrite Hret; auto; fail).
+        - destruct Hcc as (_ & Hr2). rewrite Hr2, Hret. auto.
+        - subst s2. destruct r2 as [b2| | |]; simpl; try (rewrite Hret; auto; fail).
+          destruct b2; simpl; rewrite Hret; auto. }
+      destruct (Htake HGb') as (Hlen2 & HD3).
+      change s' with (sk (emk s' c3 false (elatch es) (eres es))).
+      apply ehead_inv; simpl; try assumption.
+      + rewrite Hret. exact HD3.
+      + change (events (emk s' c3 false (elatch es) (eres es))) with (events es).
+        rewrite Hret, Hk. rewrite spec_mono_firstn. exact Hev0.
+      + change (events (emk s' c3 false (elatch es) (eres es))) with (events es). rewrite Hret, Hlen2. exact Hk.
+    - rewrite Hret in HGb. destruct (Htake HGb) as (Hn & HR').
+      constructor; simpl; try assumption.
+      + rewrite events_snoc_event, app_length. simpl. rewrite Nat.add_1_r, Hret, Hk.
+        rewrite <- (firstn_snoc_nth _ _ _ Hn). f_equal. rewrite spec_mono_firstn. exact Hev0.
+      + intros _. split; [exact Hidle'|]. rewrite events_snoc_event, app_length. simpl.
+        rewrite Nat.add_1_r, Hret, Hk. exact HR'.
+      + discriminate.
+  Qed.
+End Compose.
